@@ -146,6 +146,19 @@ class Verifier(Engine):
                             clause="%s must be raised when %s" % (exc, expr))
             st.frames[0].vars["result"] = res
             post = st
+            if self.fi.is_generator() and c.yields_range is not None:
+                yf = [t for t in st.trace if t[0] == "yieldfrom"]
+                lo, hi, step = c.yields_range
+                ok = len(yf) == 1
+                self.oblige(st, ok, "enumerates:exactly_one_range", node, site=site, kind="post",
+                            clause="the generator is one `yield from range(...)`")
+                if ok:
+                    self.oblige(st, self.equal(yf[0][1], self.ev(self.reg.parse_expr(lo), self.spec_view(st))),
+                                "enumerates:first_step", node, site=site, kind="post", clause="range starts at " + lo)
+                    self.oblige(st, self.equal(yf[0][2], self.ev(self.reg.parse_expr(hi), self.spec_view(st))),
+                                "enumerates:bound", node, site=site, kind="post", clause="range stops before " + hi)
+                    self.oblige(st, self.equal(yf[0][3], step), "enumerates:direction", node, site=site,
+                                kind="post", clause="range step is %d" % step)
             if self.fi.is_generator():
                 for label, expr, props in c.stop_ensures:
                     self.oblige(st, self.ev_spec(expr, post), "stop:%s" % label, node, site=site,
@@ -335,7 +348,12 @@ class Verifier(Engine):
         if isinstance(v, ast.Yield):
             return self.do_yield(v, st)
         if isinstance(v, ast.YieldFrom):
-            raise Unsupported("yield from")
+            it = self.ev(v.value, st)
+            if not isinstance(it, RangeV):
+                raise Unsupported("yield from a non-range")
+            st.trace.append(("yieldfrom", it.lo, it.hi, it.step))
+            self.cover(st, (st.frames[-1].func or self.fi).site(v, "yieldfrom"))
+            return [(st, (Signal.NORMAL, None))]
         if isinstance(v, ast.Constant):
             return [(st, (Signal.NORMAL, None))]      # docstring
         if self.is_closure_call(v, st):
